@@ -113,6 +113,11 @@ class TreeGen:
             return ('bin', name, level, left, right)
         if c < 0.75:
             name = r.choice(self.un)
+            if r.random() < 0.12:
+                # the unary operators the lexer and the code generator single out (signs, negation) get a share of their own
+                special = [u for u in ('+', '-', '!') if u in self.un]
+                if special:
+                    name = r.choice(special)
             self.used.add(('U', name))
             child = self.tree(depth + 1, ctx)
             if name in ('-', '+') and child[0] == 'num':
@@ -453,7 +458,7 @@ def main(tier):
         tmin = join(rng, tokens(rng, t, False, 0), rng.random() < 0.5)
         tfull = join(rng, tokens(rng, t, True, 0), False)
         ecases.append((t, tmin, tfull))
-        items.append([{'op': 'run', 'vm': 0, 'src': 'diag_log str [%s]; diag_log str [%s]' % (tmin, tfull), 'reset_ts': True}])
+        items.append([{'op': 'run', 'vm': 0, 'src': 'diag_log str [%s]; diag_log str [%s]' % (tmin, tfull), 'reset_ts': True}, {'op': 'parse', 'vm': 0, 'src': tmin}])
     results = core.run_items(runner, [dict(vmstep, auto_renew=True)], items, batch=60, base_cpu_ms=4000, item_cpu_ms=lambda it: 300, counters=chk.counters)
     for i, ((t, text, mode), r) in enumerate(zip(cases, results[:n])):
         chk.evaluations += 1
@@ -496,6 +501,13 @@ def main(tier):
             chk.violation('exec-missing', 'evaluation of `%s` printed %s' % (tmin[:200], vals), rep)
             continue
         chk.count('exec_compared')
+        pst = r[1]
+        if pst.get('ok') and pst.get('listing') != listing(t):
+            # an instruction that is missing or misplaced without changing this particular value (a unary plus on a number, say) still shows here
+            chk.violation('listing-mismatch|exec', 'instruction listing of `%s` is not the post-order of its tree: expected %s, got %s' % (
+                tmin[:300], json.dumps(listing(t))[:400], json.dumps(pst.get('listing'))[:400]), dict(rep, observed_listing=pst.get('listing')))
+            continue
+        chk.count('exec_listings_compared')
         if vals[0] != vals[1]:
             chk.violation('value-differs-from-parenthesised', 'value of `%s` is %s but the fully parenthesised `%s` gives %s' % (tmin[:200], vals[0], tfull[:200], vals[1]), rep)
             continue
